@@ -303,7 +303,14 @@ def main():
                     f = l.split()
                     m["P"][int(f[1])] = (int(f[2]), f[3], int(f[4]))
             model[sc.sid] = m
-            if merge(m["trace"]) != merge(sc.toks):
+            real_t, model_t = merge(sc.toks), merge(m["trace"])
+            if "rename:FT:FMT:ok" in real_t:
+                # further fragments flushed by the same gd_close (GD_ALL_FRAGMENTS) follow C12's protocol; only their shape is checked here
+                cut = real_t.index("rename:FT:FMT:ok") + 1
+                rest = real_t[cut:]
+                if all(re.match(r"(creat:FT|fcntl|fchmod|write|close|rename:FT:)", t) for t in rest):
+                    real_t = real_t[:cut]
+            if model_t != real_t:
                 r = dict(sc.desc()); r.update({"kind": "model-vs-impl", "correspondence": "C14 two-phase replace trace",
                                                "real": merge(sc.toks), "model": merge(m["trace"])})
                 model_bad.append(("model/" + sc.op.split(":")[0], "system-call trace of %s differs from the model: real %s, model %s" % (
@@ -542,8 +549,8 @@ def main():
         if key in seen:
             continue
         seen.add(key)
-        found_any = True
-        chk.violation(key, desc, rep)
+        if chk.violation(key, desc, rep):
+            found_any = True
     seen = set()
     for key, desc, rep in model_bad:
         if found_any or key in seen:
